@@ -55,10 +55,11 @@ from bisturi.packet import PacketError
         if self.generate_for_pack:
             pack_code = '''
 def pack_impl(pkt, fragments, **k):
-%(sync_descriptors_code)s
-   k['innermost-pkt-pos'] = fragments.current_offset
+   name = None
    fields = pkt.get_fields()
    try:
+%(sync_descriptors_code)s
+      k['innermost-pkt-pos'] = fragments.current_offset
 %(blocks_of_code)s
    except PacketError as e:
       e.add_parent_field_and_packet(fragments.current_offset, name, pkt.__class__.__name__)
@@ -87,16 +88,17 @@ from bisturi.packet import PacketError
 
 def unpack_impl(pkt, raw, offset, **k):
    k['innermost-pkt-pos'] = offset
+   name = None
    fields = pkt.get_fields()
    try:
 %(blocks_of_code)s
+%(sync_descriptors_code)s
    except PacketError as e:
       e.add_parent_field_and_packet(offset, name, pkt.__class__.__name__)
       raise e
    except Exception as e:
       raise PacketError(True, name, pkt.__class__.__name__, offset, str(e))
 
-%(sync_descriptors_code)s
    return offset
 ''' % {
                     'blocks_of_code':
@@ -240,8 +242,17 @@ def unpack_impl(pkt, raw, offset, **k):
         if not sync_methods:
             return ""
 
-        sync_calls = '\n'.join('   sync_methods[%i](pkt)' % i \
-                                            for i in range(len(sync_methods)))
+        # the hooks run inside the try block: a failing hook is reported
+        # as a PacketError that names the described field
+        setup_code = "   " + setup_code
+        sync_calls = '\n'.join(
+            '      name = %r\n      sync_methods[%i](pkt)' % (
+                getattr(
+                    getattr(sync_methods[i], '__self__', None),
+                    'real_field_name', None
+                ), i
+            ) for i in range(len(sync_methods))
+        )
         return setup_code + sync_calls
 
     def generate_code_for_fixed_fields(self, fields):
